@@ -113,6 +113,13 @@ def worlds(tier):
                   dict(base, presubmit=((0, "c1"), (n - 1, "c2")), starters=(0, n - 1), max_starts=2, max_hb=0,
                        max_moves=(10 if kind == "multi" else 9) if q else (11 if (kind == "multi" or (n, q1, q2) == (3, 2, 2)) else
                                                ((8 if q1 == 1 else 10) if n == 3 else 9))), 600_000))
+    # asymmetric Flexible Paxos quorums in the quick tier too: (3,1) = every promise needed, one acceptance enough;
+    # (1,3) the reverse.  Two competing candidates, one queued command each, explored to exhaustion.
+    if q:
+        for q1, q2, mm in ((3, 1, 10), (1, 3, 7)):
+            W.append((f"flex-n3-q{q1}{q2}-takeover", "log",
+                      dict(kind="flex", n=3, q1=q1, q2=q2, presubmit=((0, "c1"), (2, "c2")), starters=(0, 2),
+                           max_starts=2, max_hb=0, max_moves=mm), 400_000))
     # leader hand-off window: a is the established leader; c attempts a take-over; two client commands arrive
     # during the hand-off, each at whichever node reports is_leader at that moment (old or new leader)
     W.append(("multi-handoff-2cmds", "log",
